@@ -194,9 +194,12 @@ struct SetSpec {
         case INS: case EMPLACE: case INS_F:
             if ( o.res ) { if ( it != m.end()) return false; m[o.arg] = o.arg2; return true; }
             return it != m.end();
-        case DEL: case UNLINK: case DEL_F:
+        case DEL: case DEL_F:
             if ( o.res ) { if ( it == m.end()) return false; if ( map_values && o.op == DEL_F && o.res2 != it->second ) return false; m.erase( it ); return true; }
             return it == m.end();
+        case UNLINK:    // unlink( item ): removes exactly the item whose identity value is arg2; fails if the key is absent or maps to another item
+            if ( o.res ) { if ( it == m.end() || ( map_values && it->second != o.arg2 )) return false; m.erase( it ); return true; }
+            return it == m.end() || ( map_values && it->second != o.arg2 );
         case EXTRACT:
             if ( o.res ) { if ( it == m.end()) return false; if ( map_values && o.res2 != it->second ) return false; m.erase( it ); return true; }
             return it == m.end();
